@@ -17,7 +17,7 @@ EXHAUSTIVE = {'quick': True, 'thorough': True}
 TECHNIQUE = 'Coq proof (round trip, delimiter uniqueness, length bound, resynchronisation by induction over octet lists) + correspondence incl. exhaustive control-alphabet strings and fault injection'
 LEVEL_TEXT = ('Properties_C12.v: for every payload and both modes decode(encode p ++ r) delivers p and leaves r; concatenated frames decode in order; END occurs '
               'only as delimiter; length <= 2n+1 (2n+2) with equality for all-control payloads; resynchronisation after any garbage (classic: after the next END; '
-              'start-of-frame: at most the first non-empty frame lost); invalid escape = EILSEQ; no amplification; the operational decoder over plain endpoints equals the pure one; under EVERY behaviour script of source and sink (short answers, EINTR/EAGAIN, hard errors at any position) one call of the operational decoder returns, consumes a prefix of the stream, appends to the sink, never emits more octets than it consumed, reports besides its own EILSEQ only error codes a driver produced, and REFINES the structural decoder: on exactly the octets it consumed the structural decoder gives the same verdict, output and state, with at most the octet in flight undelivered when a driver fails (C12_decode_refines).')
+              'start-of-frame: at most the first non-empty frame lost); invalid escape = EILSEQ; no amplification; the operational decoder over plain endpoints equals the pure one; under EVERY behaviour script of source and sink (short answers, EINTR/EAGAIN, hard errors at any position) one call of the operational decoder returns, consumes a prefix of the stream, appends to the sink, never emits more octets than it consumed, reports besides its own EILSEQ only error codes a driver produced, and REFINES the structural decoder: on exactly the octets it consumed the structural decoder gives the same verdict, output and state, with at most the octet in flight undelivered when a driver fails (C12_decode_refines); one call of the operational encoder under every source script and every taking-or-failing sink puts a prefix of the specified encoding of what it took from the source on the sink, the whole frame on success (C12_encode_under_faults).')
 LEVEL_NOTE = 'Trusted: Coq kernel; hand model of rfc1055.c (correspondence-tested incl. error injection at every position); harness. No axioms.'
 
 ALPHA = [0xc0, 0xdb, 0xdc, 0xdd, 0x41]
